@@ -3,7 +3,7 @@
 # scratch copy of /repo/src with one textual replacement; runs the given checks against it.
 F="$1"; OLD="$2"; NEW="$3"; shift 3
 D=$(mktemp -d /tmp/mut.XXXXXX)
-cp -r /repo/src "$D/src"
+cp -r /repo/src "$D/src"; cp /repo/Cargo.toml /repo/Cargo.lock "$D/"
 python3 - "$D/$F" "$OLD" "$NEW" <<'PY' || { rm -rf "$D"; exit 3; }
 import sys
 p,old,new=sys.argv[1:4]
